@@ -5,8 +5,10 @@
      read_back : amount_t::print followed by amount_t::parse (rounding at the display precision,
                  zero trimming), read_back_value : value_t::print (bare 0 for a display-zero amount),
      print_reread = decide ; reread ; finalize,   equity_account : posts_as_equity per account.
-   Statements that are FALSE of the faithful model are kept as `..._refuted` with their witness
-   (findings F7, F8, F27, F28). *)
+   The one statement that is FALSE of the faithful model is kept as `..._refuted` with its witness
+   (finding F8).  Three former refutations became theorems when /repo was repaired (bcb53b0: the
+   elision requires must_balance; 294def6: posting marks; c386080: zero amount with a per-unit cost);
+   their old witnesses survive as Examples of the repaired behaviour. *)
 From LedgerV Require Import Base.Prelude Base.Round Model.Amount Model.AmountText Model.Xact Model.Print
   Proofs.AmountProofs Proofs.XactProofs Proofs.PrintProofs.
 Local Open Scope Q_scope.
@@ -49,17 +51,35 @@ Theorem total_cost_roundtrip : forall cp t a,
 Proof. exact PrintProofs.total_cost_roundtrip. Qed.
 Print Assumptions total_cost_roundtrip.
 
-(* ---- print ; re-read ; finalize *)
+(* ---- print ; re-read ; finalize: a transaction of any length whose amounts were all written and
+   which balances exactly is accepted again from the printed text, with the same accounts, kinds,
+   exact amounts and exact costs *)
 Theorem print_reread_equiv : forall ord cp xs (l : list xpost),
-  length l <> 2%nat -> l <> [] -> Forall (wf_written cp) l -> wf_costs (map fst l) ->
+  l <> [] -> Forall (wf_written cp) l -> wf_costs (map fst l) ->
   (forall c, bsum (map fst l) c == 0) ->
   finalize ord cp None (map fst l) = Ok (Accepted (map fst l)) /\
   exists ps'', print_reread ord cp xs (attach (map fst l) (map snd l)) = Ok (Accepted ps'') /\
                Forall2 psim ps'' (map fst l).
-Proof. exact PrintProofs.print_reread_equiv. Qed.
+Proof. exact print_reread_equiv_all. Qed.
 Print Assumptions print_reread_equiv.
 
-(* the two-posting elision: what the reader infers for the amount that was left out ... *)
+(* the two-posting case on its own: no hypothesis about the kinds of the postings - the printer
+   checks must_balance() of both before it leaves the second amount out (print.cc:231-232) *)
+Theorem print_reread_pair : forall ord cp xs x1 x2,
+  wf_written cp x1 -> wf_written cp x2 -> wf_costs [fst x1; fst x2] ->
+  (forall c, bsum [fst x1; fst x2] c == 0) ->
+  exists ps'', print_reread ord cp xs [x1; x2] = Ok (Accepted ps'') /\ Forall2 psim ps'' [fst x1; fst x2].
+Proof. exact PrintProofs.print_reread_pair. Qed.
+Print Assumptions print_reread_pair.
+
+Theorem print_elides_only_balancing_pairs : forall count index first x,
+  elides count index first x = true ->
+  count = 2%nat /\ index = 2%nat /\ must_balance (fst x) = true /\ must_balance (fst first) = true /\
+  simple_amount x = true /\ simple_amount first = true /\ amt_comm (fst first) = amt_comm (fst x).
+Proof. exact elides_must_balance. Qed.
+Print Assumptions print_elides_only_balancing_pairs.
+
+(* what the reader infers for an amount that was left out ... *)
 Theorem elided_second_is_negation : forall ord cp acct1 k1 a1 acct2 k2,
   k1 <> PVirtual -> k2 <> PVirtual ->
   finalize ord cp None [mkp acct1 k1 (Some a1); mkp acct2 k2 None]
@@ -68,7 +88,8 @@ Theorem elided_second_is_negation : forall ord cp acct1 k1 a1 acct2 k2,
 Proof. exact PrintProofs.elided_second_is_negation. Qed.
 Print Assumptions elided_second_is_negation.
 
-(* ... is the amount that was written, PROVIDED both postings must balance *)
+(* ... is the amount that was written: an accepted pair of plainly written amounts of one commodity
+   balances exactly (no display-precision slack), so the inferred -a1 is a2 *)
 Theorem print_elide_sound : forall ord cp acct1 k1 a1 acct2 k2 a2 ps',
   k1 <> PVirtual -> k2 <> PVirtual -> acomm a1 = acomm a2 ->
   match acomm a1 with Some c => (aprec a1 <= cp c /\ aprec a2 <= cp c)%Z | None => True end ->
@@ -77,8 +98,8 @@ Theorem print_elide_sound : forall ord cp acct1 k1 a1 acct2 k2 a2 ps',
 Proof. exact elision_sound. Qed.
 Print Assumptions print_elide_sound.
 
-(* without that proviso the statement is false of the faithful model: print.cc does not test
-   must_balance().  Every (virtual) pair whose second amount is left out is rejected on re-read *)
+(* why the printer has to check must_balance: the READER rejects every (virtual) pair whose second
+   amount is missing - nothing fills a null amount that need not balance *)
 Theorem elided_virtual_is_rejected : forall ord cp acct1 a1 acct2,
   finalize ord cp None [mkp acct1 PVirtual (Some a1); mkp acct2 PVirtual None] = Err ENullLeft.
 Proof. exact PrintProofs.elided_virtual_is_rejected. Qed.
@@ -87,19 +108,18 @@ Print Assumptions elided_virtual_is_rejected.
 Definition usd : option comm := Some [36%Z].
 Definition cp2 : comm -> Z := fun _ => 2%Z.
 
-(* finding F7, witness `(A) $-3.00 / (B) $3.00`: accepted, printed with `(B)` bare, text rejected *)
+(* the witness of the repaired defect [F7] `(A) $-3.00 / (B) $3.00` (before /repo bcb53b0 print wrote
+   `(B)` bare and the text was rejected): both amounts are printed and the text is accepted *)
 Definition f7_witness : list xpost :=
   [(mkp [65%Z] PVirtual (Some (mkAmt (-3) 2 false usd)), no_extra SUncleared);
    (mkp [66%Z] PVirtual (Some (mkAmt 3 2 false usd)), no_extra SUncleared)].
 
-Theorem print_elide_virtual_refuted :
-  exists (l : list xpost),
-    match finalize false cp2 None (map fst l) with
-    | Ok (Accepted ps') => print_reread false cp2 SUncleared (attach ps' (map snd l)) = Err ENullLeft
-    | _ => False
-    end.
-Proof. exists f7_witness. vm_compute. reflexivity. Qed.
-Print Assumptions print_elide_virtual_refuted.
+Example virtual_pair_prints_both_amounts :
+  decide cp2 SUncleared f7_witness =
+  Ok [mkLine [65%Z] PVirtual SUncleared (Some (mkAmt (-3) 2 false usd)) None None None;
+      mkLine [66%Z] PVirtual SUncleared (Some (mkAmt 3 2 false usd)) None None None] /\
+  print_reread false cp2 SUncleared f7_witness = Ok (Accepted (map fst f7_witness)).
+Proof. split; vm_compute; reflexivity. Qed.
 
 (* finding F8: a commoditized zero is written as a bare 0; the quantity survives, the commodity does not *)
 Theorem zero_amount_commodity_lost_refuted :
@@ -109,36 +129,40 @@ Proof.
 Qed.
 Print Assumptions zero_amount_commodity_lost_refuted.
 
-(* finding F28: `A 0 AAA @ $2.00 / B $5.00 / C` is accepted and print fails on it *)
-Definition f23_zero : amount := mkAmt 0 0 false (Some [65; 65; 65]%Z).
-Definition f23_cost : amount := cost_per_unit cp2 (mkAmt 2 2 true usd) f23_zero.
-Definition f23_witness : list xpost :=
-  [(mkPost [65%Z] PReal (Some f23_zero) (Some f23_cost) None false false false,
-    mkExtra SUncleared (Some f23_cost) false false None);
+(* print produces its lines for every transaction (repaired defect [F28]: `A 0 AAA @ $2.00 / B $5.00 / C`
+   made print abort with "Divide by zero" before /repo c386080) *)
+Theorem print_never_fails : forall cp xs l, exists ls, decide cp xs l = Ok ls.
+Proof. exact decide_total. Qed.
+Print Assumptions print_never_fails.
+
+Definition f28_zero : amount := mkAmt 0 0 false (Some [65; 65; 65]%Z).
+Definition f28_cost : amount := cost_per_unit cp2 (mkAmt 2 2 true usd) f28_zero.
+Definition f28_witness : list xpost :=
+  [(mkPost [65%Z] PReal (Some f28_zero) (Some f28_cost) None false false false,
+    mkExtra SUncleared (Some f28_cost) false false None);
    (mkp [66%Z] PReal (Some (mkAmt 5 2 false usd)), no_extra SUncleared);
-   (mkp [67%Z] PReal None, no_extra SUncleared)].
+   (mkPost [67%Z] PReal (Some (mkAmt (-5) 2 false usd)) None None true false false, no_extra SUncleared)].
 
-Theorem print_zero_amount_per_unit_refuted :
-  exists (l : list xpost),
-    match finalize false cp2 None (map fst l) with
-    | Ok (Accepted ps') => decide cp2 SUncleared (attach ps' (map snd l)) = Err EDivZero
-    | _ => False
-    end.
-Proof. exists f23_witness. vm_compute. reflexivity. Qed.
-Print Assumptions print_zero_amount_per_unit_refuted.
+(* the zero amount is written `0 @@ $0.00`: the total cost instead of a quotient *)
+Example zero_amount_per_unit_prints_total :
+  decide cp2 SUncleared f28_witness =
+  Ok [mkLine [65%Z] PReal SUncleared (Some (mkAmt 0 0 false None)) None (Some (CTotal, false, mkAmt 0 2 false usd)) None;
+      mkLine [66%Z] PReal SUncleared (Some (mkAmt 5 2 false usd)) None None None;
+      mkLine [67%Z] PReal SUncleared None None None None].
+Proof. vm_compute. reflexivity. Qed.
 
-(* ---- states: a posting's mark survives under an uncleared transaction, or when it is the transaction's *)
+(* ---- states: the mark print writes brings the posting's state back.  The hypothesis is the
+   invariant parse_post establishes (a posting is UNCLEARED only under an uncleared transaction: one
+   without its own mark inherits the transaction's state), so it holds of every journal that was read.
+   Repaired defect [F27]: before /repo 294def6 `* x / ! B` was printed without B's mark and B came back cleared *)
 Theorem posting_state_roundtrip : forall xs e,
-  xs = SUncleared \/ e_state e = xs -> read_state xs (mark_of xs e) = e_state e.
-Proof.
-  intros xs e [->|H]; [apply mark_roundtrip_uncleared | apply mark_roundtrip_same; exact H].
-Qed.
+  (e_state e = SUncleared -> xs = SUncleared) -> read_state xs (mark_of xs e) = e_state e.
+Proof. exact mark_roundtrip. Qed.
 Print Assumptions posting_state_roundtrip.
 
-(* finding F27: otherwise it is lost (`* x / ! B`: B comes back cleared) *)
-Theorem posting_state_lost_refuted : exists xs e, read_state xs (mark_of xs e) <> e_state e.
-Proof. exact mark_lost_refuted. Qed.
-Print Assumptions posting_state_lost_refuted.
+Example pending_posting_under_cleared_xact :
+  mark_of SCleared (no_extra SPending) = SPending /\ read_state SCleared SPending = SPending.
+Proof. split; reflexivity. Qed.
 
 (* ---- printing twice *)
 Theorem printed_amount_prints_the_same : forall cp a c,
